@@ -29,22 +29,45 @@ SCHARS = ["a", " ", "\\n", '\\"', "\\\\", "\\0", "\\x4", "\\q", "\\(", "\\%", "'
 STR_SHAPE = [["", "L", "u8", "u", "U", "x"], ['"'], SCHARS, SCHARS, SCHARS, ['"', ""]]
 
 
-def _const_check(exp):
+# where a literal can stand: (template, how to reach the Constant).  The classification of a literal must not depend
+# on the syntactic position it is used in.
+def _ctx_table():
+    return [
+        ("int x = %s;", lambda a: a.ext[0].init),
+        ("int a[%s];", lambda a: a.ext[0].type.dim),
+        ("void f(void) { %s; }", lambda a: a.ext[0].body.block_items[0]),
+        ("void f(void) { for (; %s; ) ; }", lambda a: a.ext[0].body.block_items[0].cond),
+        ("void f(void) { L: %s; }", lambda a: a.ext[0].body.block_items[0].stmt),
+        ("void f(void) { switch (0) { case 1: %s; } }", lambda a: a.ext[0].body.block_items[0].stmt.block_items[0].stmts[0]),
+        ("void f(void) { g(%s, 0); }", lambda a: a.ext[0].body.block_items[0].args.exprs[0]),
+        ("void f(void) { return %s; }", lambda a: a.ext[0].body.block_items[0].expr),
+        ("int v = sizeof(int[%s]);", lambda a: a.ext[0].init.expr.type.dim),
+        ("struct S { int m : %s; };", lambda a: a.ext[0].type.decls[0].bitsize),
+        ("int y[] = { [%s] = 0 };", lambda a: a.ext[0].init.exprs[0].name[0]),
+    ]
+
+
+def _const_check(exp, all_contexts=False):
     """For single-literal texts: Constant.type / Constant.value built by the parser."""
     from pycparser import c_parser, c_ast
     lit = exp["text"]
-    src = "int x = %s;" % lit
-    try:
-        ast = c_parser.CParser().parse(src, "l.c")
-    except Exception as e:
-        return "literal %r rejected by the parser: %s: %s" % (lit, type(e).__name__, str(e)[:80])
-    c = ast.ext[0].init
-    if not isinstance(c, c_ast.Constant):
-        return "literal %r did not become a Constant (%s)" % (lit, type(c).__name__)
-    if c.value != lit:
-        return "Constant.value %r differs from the spelling %r" % (c.value, lit)
-    if c.type != exp["ctype"]:
-        return "Constant.type %r, spelling %r implies %r" % (c.type, lit, exp["ctype"])
+    table = _ctx_table()
+    for tmpl, get in (table if all_contexts else table[:1]):
+        src = tmpl % lit
+        try:
+            ast = c_parser.CParser().parse(src, "l.c")
+        except Exception as e:
+            return "literal %r rejected by the parser in %r: %s: %s" % (lit, tmpl, type(e).__name__, str(e)[:80])
+        try:
+            c = get(ast)
+        except Exception as e:
+            return "literal %r in %r: no Constant where the context puts it (%s)" % (lit, tmpl, type(e).__name__)
+        if not isinstance(c, c_ast.Constant):
+            return "literal %r did not become a Constant in %r (%s)" % (lit, tmpl, type(c).__name__)
+        if c.value != lit:
+            return "Constant.value %r differs from the spelling %r (in %r)" % (c.value, lit, tmpl)
+        if c.type != exp["ctype"]:
+            return "Constant.type %r, spelling %r implies %r (in %r)" % (c.type, lit, exp["ctype"], tmpl)
     return None
 
 
@@ -58,7 +81,9 @@ def _work(chunk):
             out.append((exp, "lex text=%r :: %s" % (exp["text"], d)))
         if exp.get("ctype"):
             nlit += 1
-            d = _const_check(exp)
+            # every context for one literal in eight (chosen by the spelling, deterministically), the initializer for all
+            import zlib
+            d = _const_check(exp, all_contexts=zlib.crc32(exp["text"].encode()) % 8 == 0)
             if d:
                 out.append((exp, "const :: " + d))
     return len(chunk), nlit, out
